@@ -29,6 +29,11 @@ CLAIMED.update({
    text='Theorems c10_give/take_service_only, c10_give_lock, c10_take_lock, c10_transfer_exact, c10_give_mint, c10_take_mint, c10_mint/burn_requires, c10_transfer_role, c10_accept_role (usable once), c10_*_auth, c10_roles_frame, c10_no_redeploy; correspondence over all five manager types and every caller class.',
    note='Trusted: as C09; per-step custody statements (the history-level sum is their direct fold); ESDT role/frozen-account rules of the protocol are outside the model.'),
 })
+CLAIMED.update({
+ 'C15': dict(section='8/C15', technique='Coq proof (receipt characterisation, exact events, collector-only outflow for every operation, collectFees relation, collector replacement) + differential correspondence of the real gas service in the Rust VM',
+   text='Theorems c15_received, c15_pay_event, c15_add_event, c15_zero_rejected, c15_pay_ledger, c15_refund, c15_collect (inductive relation: skipped above the current balance or transferred exactly), c15_collect_zero, c15_outflow (for every operation and caller the balance decreases only in collectFees/refund by the collector), c15_collector; endpoint/payable table, event names and struct field orders regenerated and pinned.',
+   note='Trusted: Coq kernel; hand-written model tied by the correspondence (status, events, storage, balances on every step); gen_tables.py; harness.'),
+})
 NOT_YET = {}
 def main():
     props = [json.loads(l) for l in open(os.path.join(ROOT, 'properties.jsonl'))]
